@@ -27,6 +27,19 @@ class Unit(object):
         self.entry = None
         self.ip = None
         self.n_paths = 0
+        self.shape = None          # names assigned per loop (staleness of loop specifications, see cli.handle_failed)
+
+
+def loop_shape(fnnode):
+    """per loop of the function (source order): the names its body (and its `for` target) assigns.  Loop invariants name
+    loop-carried locals; a contract whose loops now assign OTHER names was written for another text of the function."""
+    loops = [n for n in ast.walk(fnnode) if isinstance(n, (ast.For, ast.While))]
+    loops.sort(key=lambda n: (n.lineno, n.col_offset))
+    out = []
+    for lp in loops:
+        names = {x.id for x in ast.walk(lp) if isinstance(x, ast.Name) and isinstance(x.ctx, ast.Store)}
+        out.append(sorted(names))
+    return out
 
 
 def number_loops(fnnode):
@@ -162,6 +175,7 @@ def build_unit(contract, case, contracts, world):
     u.ip = ip
     ip.loop_ids = number_loops(fnnode)
     ip.cur_fn = fnnode
+    u.shape = loop_shape(fnnode)
     try:
         st = State()
         argnames = [a.arg for a in fnnode.args.args] + ([fnnode.args.vararg.arg] if fnnode.args.vararg else []) \
